@@ -510,10 +510,19 @@ impl<S: Strat> Local<S> {
 
     fn do_cas(&mut self, sh: &Shared<S>, c: usize, cur: &Cur, form: Form, v: &Val) {
         // the value of `current`
+        let mut loaded_guard: Option<Guard<V, S>> = None;
         let cur_v: V = match cur {
             Cur::Loaded => {
                 self.do_load(sh, c);
                 match self.guards.pop() {
+                    // the owned-guard form gets the loaded guard itself: the harness keeps no
+                    // other reference, so the guard may be the last owner of the value
+                    Some((g, _)) if matches!(form, Form::Guard) => {
+                        let probe = std::mem::ManuallyDrop::new(unsafe { <V as RefCnt>::from_ptr(<V as RefCnt>::as_ptr(&g)) });
+                        let _ = &probe;
+                        loaded_guard = Some(g);
+                        None
+                    }
                     Some((g, _)) => Guard::into_inner(g),
                     None => return,
                 }
@@ -524,8 +533,10 @@ impl<S: Strat> Local<S> {
         if rt::aborted() {
             return;
         }
-        let cur_id = ident(&cur_v, "cas current");
-        let cur_addr = vaddr(&cur_v);
+        let (cur_id, cur_addr) = match &loaded_guard {
+            Some(g) => (ident(g, "cas current"), vaddr(g)),
+            None => (ident(&cur_v, "cas current"), vaddr(&cur_v)),
+        };
         let new = self.make_val(sh, c, v);
         let new_id = new.as_ref().map(|a| a.id()).unwrap_or(0);
         let new_fresh = matches!(v, Val::Fresh) || (matches!(v, Val::Handle(_)) && new.as_ref().map(|a| a.strong_count() == 1).unwrap_or(false));
@@ -539,7 +550,10 @@ impl<S: Strat> Local<S> {
         let prev = guarded("compare_and_swap", || match form {
             Form::Ref => cont.compare_and_swap(&cur_v, new),
             Form::Raw => cont.compare_and_swap(<V as RefCnt>::as_ptr(&cur_v) as *const varc::Obj, new),
-            Form::Guard => S::cas_guard(cont, Guard::from_inner(cur_v.clone()), new),
+            Form::Guard => match loaded_guard.take() {
+                Some(g) => S::cas_guard(cont, g, new),
+                None => S::cas_guard(cont, Guard::from_inner(cur_v.clone()), new),
+            },
             Form::GuardRef => {
                 let g = Guard::from_inner(cur_v.clone());
                 S::cas_guard_ref(cont, &g, new)
@@ -1037,6 +1051,19 @@ impl<S: Strat> Local<S> {
             Op::MapLoad(c) => {
                 if !self.in_dtor {
                     self.do_map_load(sh, *c as usize)
+                }
+            }
+            Op::Recycle(a, b) => {
+                let (a, b) = (*a as usize, *b as usize);
+                self.store_like(sh, a, &Val::Fresh, true);
+                if let Some(h) = self.handles.pop() {
+                    self.drop_handle(h);
+                }
+                if !rt::aborted() {
+                    self.store_like(sh, b, &Val::Fresh, false);
+                }
+                if !rt::aborted() {
+                    self.store_like(sh, b, &Val::Fresh, false);
                 }
             }
             Op::Aba(c) => {
